@@ -52,6 +52,9 @@ EXTRA = {  # scenarios beyond the model variants: more extensions to strip, othe
     # may decide the outcome (extended master secret on request, ALPN, two groups in opposite preference, SRTP, CIDs)
     "x-rich12hv": dict(ver="12", helloVerify=True, emsC=0, emsS=0, cidC=4, cidS=8, srtpC=[1, 2], srtpS=[2, 1], alpnC=["a", "b"], alpnS=["b", "a"],
                        curvesC=[29, 23], curvesS=[23, 29]),
+    # session stores present on both sides, nothing to resume: the full handshake takes the store-related branches
+    "x-stores12": dict(ver="12", helloVerify=True, emsC=2, emsS=2, stores=True, alpnC=["a", "b"], alpnS=["b", "a"], **NOCID),
+    "x-stores12ems": dict(ver="12", helloVerify=False, emsC=0, emsS=0, stores=True, **NOCID),
     "x-rich13": dict(ver="13", helloVerify=True, curvesC=[29], curvesS=[29], cidC=4, cidS=4, srtpC=[1], srtpS=[1]),
 }
 OUTSIDE = {"12": {"CH1", "HVR"}, "13": set()}   # RFC 6347 4.2.1: not part of the DTLS 1.2 Finished hash
@@ -139,7 +142,7 @@ def run(chk):
     if not chk.quick:
         scens.update(EXTRA)
     else:
-        scens.update({k: EXTRA[k] for k in ("x-rich12", "x-rich12hv", "x-rich13", "x-frag12")})
+        scens.update({k: EXTRA[k] for k in ("x-rich12", "x-rich12hv", "x-stores12", "x-rich13", "x-frag12")})
     names = sorted(scens)
     probes = run_cases(binary, [{"scen": scens[n], "name": n, "probe": True} for n in names], "probe")
     infos, control = {}, {}
